@@ -1770,7 +1770,7 @@ pub fn c09() -> CheckDef {
             what: "0-200 packets of mixed modes queued (30 %: followed by 1-4 Reliable packets without payload), then disconnect() (70 %) or disconnect_now() from the client or the server; loss/dup/reorder/corruption of data, ack, disconnect and disconnect-ack frames; total or one-way blackout starting right after the call (sometimes healing); the peer passive or (15 %) disconnecting as well; active timeouts 2-20 s" }],
         panic_is_violation: no_panics,
         hang_is_violation: false,
-        quick_runs: 1500,
+        quick_runs: 3000,
         thorough_runs: 40_000,
         rule: "one case = one simulated run; distinct = distinct run digest; non-trivial = a flush guarantee or a termination deadline was evaluated",
         real_code: REAL_B,
